@@ -197,6 +197,130 @@ fn check_result(what: &str, r: &Sop, n: usize, want: &Tt) -> Result<(), Fail> {
     check_structure(what, r, n, want)
 }
 
+// ---------------------------------------------------------------------------------------------
+// forms over 11..=32 variables: operation results compared with the description pointwise
+
+#[derive(Clone, Debug, Hash, Serialize, Deserialize)]
+pub struct WideCase {
+    pub n: usize,
+    pub e: SB,
+    pub ms: Vec<u32>,
+}
+
+fn strategy_wide(_t: Tier) -> BoxedStrategy<WideCase> {
+    prop_oneof![3 => 11usize..=31, 2 => Just(32usize), 1 => 16usize..=18]
+        .prop_flat_map(|n| (arb_sb_wide(n), proptest::collection::vec(any::<u32>(), 8..=16)).prop_map(move |(e, ms)| WideCase { n, e, ms }))
+        .boxed()
+}
+
+fn check_wide(what: &str, r: &Sop, d: &SB, n: usize, ms: &[u64]) -> Result<(), Fail> {
+    if r.num_vars() != n {
+        return Err(Fail { sig: "wide:num_vars".into(), msg: format!("{}: the result has {} variables, expected {}", what, r.num_vars(), n) });
+    }
+    let cubes: Vec<CubeM> = r.cubes().iter().map(CubeM::of).collect();
+    for &m in ms {
+        let want = d.eval_at(m);
+        let got = r.value(m as usize);
+        if got != want {
+            return Err(Fail { sig: "wide:value".into(), msg: format!("{}: the result {} has value({:#x}) = {} but the operand functions give {}", what, show(r), m, got, want) });
+        }
+        if cubes.iter().any(|c| c.value(m)) != want {
+            return Err(Fail { sig: "wide:cubes".into(), msg: format!("{}: cubes() {} evaluate to {} on {:#x}, expected {}", what, show(r), !want, m, want) });
+        }
+    }
+    for (i, c) in cubes.iter().enumerate() {
+        if *c == CubeM::Zero || r.cubes()[i].is_zero() {
+            return Err(Fail { sig: "wide:zero-cube".into(), msg: format!("{}: the result contains a contradictory cube ({})", what, show(r)) });
+        }
+        if c.max_var().map(|v| v >= n).unwrap_or(false) {
+            return Err(Fail { sig: "wide:var-range".into(), msg: format!("{}: the result contains the cube {} with a variable >= {}", what, c.show(), n) });
+        }
+        for (j, e) in cubes.iter().enumerate() {
+            // for non-contradictory cubes semantic containment is inclusion of the literal sets
+            if i != j && c.implies(e) {
+                return Err(Fail { sig: "wide:absorbed-cube".into(), msg: format!("{}: the result keeps the cube {} although it implies (or repeats) the cube {} ({})", what, c.show(), e.show(), show(r)) });
+            }
+        }
+    }
+    // without contradictory cubes the function is constant zero iff there is no cube
+    if r.is_zero() != cubes.is_empty() {
+        return Err(Fail { sig: "wide:is_zero".into(), msg: format!("{}: is_zero() = {} for the result {}", what, r.is_zero(), show(r)) });
+    }
+    if r.is_one() && ms.iter().any(|m| !d.eval_at(*m)) {
+        return Err(Fail { sig: "wide:is_one".into(), msg: format!("{}: is_one() holds for a result that is not constant one ({})", what, show(r)) });
+    }
+    Ok(())
+}
+
+fn eval_wide(e: &SB, n: usize, ms: &[u64], ops: &mut usize) -> Result<Sop, Fail> {
+    let g = |what: &str, r: Result<Sop, String>| -> Result<Sop, Fail> {
+        r.map_err(|p| Fail { sig: format!("panic:{}", what), msg: format!("{} over {} variables panicked on valid arguments: {} (description {:?})", what, n, p, e) })
+    };
+    match e {
+        SB::Zero => g("Sop::zero", guard(|| Sop::zero(n))),
+        SB::One => g("Sop::one", guard(|| Sop::one(n))),
+        SB::NthVar(v) => g("Sop::nth_var", guard(|| Sop::nth_var(n, *v))),
+        SB::NthVarInv(v) => g("Sop::nth_var_inv", guard(|| Sop::nth_var_inv(n, *v))),
+        SB::FromCubes(cs) => g("Sop::from_cubes", guard(|| Sop::from_cubes(n, cs.iter().map(|c| c.build()).collect()))),
+        SB::FromLut(..) => Err(Fail { sig: "harness".into(), msg: "harness bug: FromLut in a wide description".into() }),
+        SB::And(a, b, form) | SB::Or(a, b, form) => {
+            let is_and = matches!(e, SB::And(..));
+            let sa = eval_wide(a, n, ms, ops)?;
+            let sb = eval_wide(b, n, ms, ops)?;
+            if is_and && sa.num_cubes() * sb.num_cubes() > 3000 {
+                // too large a product: this node is not judged (the description then no longer
+                // describes sa, so nothing above it is either)
+                return Err(Fail { sig: "inconclusive:size".into(), msg: String::new() });
+            }
+            let (ca, cb) = (sa.clone(), sb.clone());
+            let r = g(if is_and { "Sop &" } else { "Sop |" }, guard(|| sop_binop(ca, cb, is_and, *form)))?;
+            let what = format!("({}) {} ({}) [form {}] over {} variables", show(&sa), if is_and { "&" } else { "|" }, show(&sb), form, n);
+            check_wide(&what, &r, e, n, ms)?;
+            *ops += 1;
+            Ok(r)
+        }
+        SB::Not(a, form) => {
+            let sa = eval_wide(a, n, ms, ops)?;
+            if sa.num_cubes() > 3 || sa.cubes().iter().any(|c| c.num_lits() > 4) {
+                return Err(Fail { sig: "inconclusive:size".into(), msg: String::new() });
+            }
+            let ca = sa.clone();
+            let r = g("Sop !", guard(|| if form % 2 == 0 { !ca } else { !&ca }))?;
+            let what = format!("!({}) [form {}] over {} variables", show(&sa), form, n);
+            check_wide(&what, &r, e, n, ms)?;
+            *ops += 1;
+            Ok(r)
+        }
+    }
+}
+
+pub fn run_wide(c: &WideCase) -> Verdict {
+    let mut leaf = Vec::new();
+    c.e.leaf_cubes(&mut leaf);
+    let ms = wide_assignments(c.n, &c.ms, &leaf);
+    let mut ops = 0usize;
+    let s = match eval_wide(&c.e, c.n, &ms, &mut ops) {
+        Ok(s) => s,
+        Err(f) if f.sig == "inconclusive:size" => return pass(false, vec!["skipped:size".into()]),
+        Err(f) => return Err(f),
+    };
+    // the leaves themselves (constructors) are judged at the root
+    check_leafwise(&s, &c.e, c.n, &ms)?;
+    let hi = leaf.iter().any(|l| l.max_var().map(|v| v >= 16).unwrap_or(false));
+    pass(ops >= 1 && hi, vec![format!("n:{}", if c.n == 32 { "32" } else if c.n > 16 { "17-31" } else { "11-16" }), format!("ops:{}", std::cmp::min(ops, 4))])
+}
+
+fn check_leafwise(r: &Sop, d: &SB, n: usize, ms: &[u64]) -> Result<(), Fail> {
+    for &m in ms {
+        let want = d.eval_at(m);
+        let got = r.value(m as usize);
+        if got != want {
+            return Err(Fail { sig: "wide:value".into(), msg: format!("Sop {:?} over {} variables = {}: value({:#x}) = {} but the description gives {}", d, n, show(r), m, got, want) });
+        }
+    }
+    Ok(())
+}
+
 pub fn run(c: &Case) -> Verdict {
     let mut info = Info::default();
     let (s, f) = match eval(&c.e, c.n, &mut info) {
@@ -210,6 +334,13 @@ pub fn run(c: &Case) -> Verdict {
     }
     if !f.is_const() {
         info.nonconst_result = true;
+    }
+    // the same object as both operands: s | s and s & s denote s
+    if s.num_cubes() <= 38 {
+        let r = lib!("Sop | with the same object on both sides", &s | &s);
+        check_result(&format!("s | s with the same object s = {} on both sides", show(&s)), &r, c.n, &f)?;
+        let r = lib!("Sop & with the same object on both sides", &s & &s);
+        check_result(&format!("s & s with the same object s = {} on both sides", show(&s)), &r, c.n, &f)?;
     }
     let mut labels = vec![format!("n:{}", c.n), format!("ops:{}", std::cmp::min(info.ops, 6))];
     if info.skipped > 0 {
@@ -321,6 +452,15 @@ pub fn def() -> PropDef {
             exhaustive: Some(enumerate),
             exhaustive_note: "n<=2: all subsets of cubes as operands (pairs strided by 7 in quick); n=3: all lists of <=2 cubes (pairs strided by 11 in quick)",
             run,
+        }),
+        Box::new(Sub {
+            name: "wide",
+            rule: "n in 11..=32 (32 and 16..18 over-represented): descriptions built from literals, from_cubes lists of up to 3 cubes of up to 4 literals (variables biased to the top of the range and to 15/16/17/30/31), their complements, general cube lists, combined by & and | (4 forms); every operation result is compared with the description on 8..16 generated 32-bit assignments, the constant and alternating ones, and a satisfying assignment plus a near miss for every cube given to a constructor: value(m), cubes() read back, no contradictory / out-of-range / absorbed / repeated cube (literal-set inclusion), is_zero iff no cube, is_one only if every sampled value is true. Non-trivial = at least one operation and a literal of a variable >= 16.",
+            strategy: strategy_wide,
+            cases: (60_000, 1_500_000),
+            exhaustive: None,
+            exhaustive_note: "",
+            run: run_wide,
         })],
     }
 }
